@@ -39,6 +39,8 @@ func (f mField) schema() map[string]any {
 		s = map[string]any{"type": "integer"}
 	case "int64":
 		s = map[string]any{"type": "integer", "format": "int64"}
+	case "int32", "int16", "int8", "uint", "uint8", "uint16", "uint32", "uint64":
+		s = map[string]any{"type": "integer", "format": f.Kind}
 	case "double":
 		s = map[string]any{"type": "number", "format": "double"}
 	case "float":
@@ -132,6 +134,21 @@ func genMemberValue(rng *rand.Rand, kind string) any {
 		return []int64{0, 1, -1, math.MaxInt32, math.MinInt32, 1 << 40}[rng.Intn(6)]
 	case "int64":
 		return []int64{0, -1, math.MaxInt64, math.MinInt64, 1 << 53}[rng.Intn(5)]
+	// the sized formats at the ends of their ranges (uint64 beyond what int64 holds)
+	case "int32":
+		return []int64{0, -1, math.MaxInt32, math.MinInt32}[rng.Intn(4)]
+	case "int16":
+		return []int64{0, -1, math.MaxInt16, math.MinInt16}[rng.Intn(4)]
+	case "int8":
+		return []int64{0, -1, math.MaxInt8, math.MinInt8}[rng.Intn(4)]
+	case "uint8":
+		return []uint64{0, 1, math.MaxUint8}[rng.Intn(3)]
+	case "uint16":
+		return []uint64{0, 1, math.MaxUint16}[rng.Intn(3)]
+	case "uint", "uint32":
+		return []uint64{0, 1, math.MaxInt32 + 1, math.MaxUint32}[rng.Intn(4)]
+	case "uint64":
+		return []uint64{0, 1, math.MaxUint32 + 1, 1 << 63, math.MaxUint64, math.MaxInt64 + 2}[rng.Intn(6)]
 	case "double":
 		return []float64{0, 1.5, -2.25, 3.141592653589793, 1e100, 5e-324}[rng.Intn(6)]
 	case "float":
@@ -252,7 +269,7 @@ func zeroOf(kind string) any {
 	switch kind {
 	case "string":
 		return ""
-	case "int", "int64":
+	case "int", "int64", "int32", "int16", "int8", "uint", "uint8", "uint16", "uint32", "uint64":
 		return 0
 	case "double", "float":
 		return 0.0
@@ -363,7 +380,7 @@ func runC07(r *Report, rng *rand.Rand, thorough bool) {
 	if thorough {
 		nSchemas, nInst = 300, 40
 	}
-	kinds := []string{"string", "int", "int64", "double", "bool", "date", "arr", "map", "ref", "arrobj", "inlobj", "arrref", "mapobj", "byte", "uuid", "datetime", "email", "mapnullint", "mapnullref", "rawjson"}
+	kinds := []string{"string", "int", "int64", "int32", "int16", "int8", "uint", "uint8", "uint16", "uint32", "uint64", "uint64", "double", "bool", "date", "arr", "map", "ref", "arrobj", "inlobj", "arrref", "mapobj", "byte", "uuid", "datetime", "email", "mapnullint", "mapnullref", "rawjson"}
 	var schemas []mSchema
 	// two fixed schemas with one member of EVERY kind: all optional and non-nullable in a plain object, all required
 	for fi, req := range []bool{false, true} {
@@ -673,5 +690,5 @@ func runC07(r *Report, rng *rand.Rand, thorough bool) {
 	}
 	ccases.WriteTo(r)
 	// ---- number without format is float32 (documented): a value needing more precision is narrowed
-	r.Rule = "two fixed object schemas with one member of every kind (all optional / all required) and object schemas from a grammar (1-5 members: required/optional x nullable x {string, int, int64, double, bool, date, byte (incl. the empty string), uuid, date-time, email, array, map, referenced object, array of inline objects with additional members, inline object with additional members, array of references, map of inline objects with additional members, dictionaries whose values are nullable integers / nullable references (explicit null values), format json (json.RawMessage)}, some readOnly/writeOnly, some optional members without a pointer (x-go-type-skip-optional-pointer: absent or non-zero), some readOnly/writeOnly; additionalProperties absent / true / string / integer / array of integers / object with optional members / map of strings, with 0-3 additional members) x {default, nullable-type, disable-required-readonly-as-pointer}, plus four merged (allOf) types whose members differ in what they allow for unknown members and three union types (oneOf / anyOf / oneOf with an own property) with 64-bit extremes inside the stored member, generated and compiled; valid instances from a schema-directed generator (one instance per schema with zero values in every required member and one with zero values in every member, optional ones included, explicit nulls, absent optionals, empty arrays/maps, 64-bit extremes, float64 edge values, escaped and non-ASCII strings, extra members of the additional type) unmarshalled into the generated type and marshalled again; semantic JSON equality modulo the documented exception (oracle) and the model's re-encoded object (Coq); non-trivial = instance with at least two members"
+	r.Rule = "two fixed object schemas with one member of every kind (all optional / all required) and object schemas from a grammar (1-5 members: required/optional x nullable x {string, int, int64, int32, int16, int8, uint, uint8, uint16, uint32, uint64 (each at the ends of its range, uint64 beyond 2^63), double, bool, date, byte (incl. the empty string), uuid, date-time, email, array, map, referenced object, array of inline objects with additional members, inline object with additional members, array of references, map of inline objects with additional members, dictionaries whose values are nullable integers / nullable references (explicit null values), format json (json.RawMessage)}, some readOnly/writeOnly, some optional members without a pointer (x-go-type-skip-optional-pointer: absent or non-zero), some readOnly/writeOnly; additionalProperties absent / true / string / integer / array of integers / object with optional members / map of strings, with 0-3 additional members) x {default, nullable-type, disable-required-readonly-as-pointer}, plus four merged (allOf) types whose members differ in what they allow for unknown members and three union types (oneOf / anyOf / oneOf with an own property) with 64-bit extremes inside the stored member, generated and compiled; valid instances from a schema-directed generator (one instance per schema with zero values in every required member and one with zero values in every member, optional ones included, explicit nulls, absent optionals, empty arrays/maps, 64-bit extremes, float64 edge values, escaped and non-ASCII strings, extra members of the additional type) unmarshalled into the generated type and marshalled again; semantic JSON equality modulo the documented exception (oracle) and the model's re-encoded object (Coq); non-trivial = instance with at least two members"
 }
